@@ -43,6 +43,47 @@ type bfail struct{ msg string }
 
 type pkgInfo struct {
 	files []*ast.File
+	dir   string
+}
+
+// imported resolves a package alias used in this package to a package of the same module ("" module root = the
+// directory with go.mod above p.dir); nil when the import is not part of the module.
+func (p *pkgInfo) imported(alias string) *pkgInfo {
+	root := p.dir
+	for {
+		if _, err := os.Stat(filepath.Join(root, "go.mod")); err == nil {
+			break
+		}
+		up := filepath.Dir(root)
+		if up == root {
+			return nil
+		}
+		root = up
+	}
+	mod := ""
+	if raw, err := os.ReadFile(filepath.Join(root, "go.mod")); err == nil {
+		for _, l := range strings.Split(string(raw), "\n") {
+			if strings.HasPrefix(l, "module ") {
+				mod = strings.TrimSpace(strings.TrimPrefix(l, "module "))
+			}
+		}
+	}
+	if mod == "" {
+		return nil
+	}
+	for _, f := range p.files {
+		for _, im := range f.Imports {
+			path, _ := strconv.Unquote(im.Path.Value)
+			name := filepath.Base(path)
+			if im.Name != nil {
+				name = im.Name.Name
+			}
+			if name == alias && strings.HasPrefix(path, mod+"/") {
+				return loadPkg(filepath.Join(root, strings.TrimPrefix(path, mod+"/")))
+			}
+		}
+	}
+	return nil
 }
 
 var pkgCache = map[string]*pkgInfo{}
@@ -51,7 +92,7 @@ func loadPkg(dir string) *pkgInfo {
 	if p, ok := pkgCache[dir]; ok {
 		return p
 	}
-	p := &pkgInfo{}
+	p := &pkgInfo{dir: dir}
 	names, _ := filepath.Glob(filepath.Join(dir, "*.go"))
 	sort.Strings(names)
 	for _, n := range names {
@@ -155,6 +196,8 @@ func (p *pkgInfo) tyOf(e ast.Expr) string {
 			return "bool"
 		case "error":
 			return "error"
+		case "string":
+			return "bytes" // a string is its octets
 		}
 		if d := p.typeDecl(v.Name); d != nil {
 			if _, ok := d.(*ast.StructType); ok {
@@ -174,6 +217,16 @@ func (p *pkgInfo) tyOf(e ast.Expr) string {
 	case *ast.SelectorExpr:
 		if id, ok := v.X.(*ast.Ident); ok && id.Name == "pool" && v.Sel.Name == "Buffer" {
 			return "bytes"
+		}
+		// a type of another package of the module: dnsmsg.Question
+		if id, ok := v.X.(*ast.Ident); ok {
+			if q := p.imported(id.Name); q != nil {
+				ty := q.tyOf(v.Sel)
+				if strings.HasPrefix(ty, "struct:") {
+					return "struct:" + id.Name + "." + v.Sel.Name
+				}
+				return ty
+			}
 		}
 	}
 	return "?"
@@ -198,6 +251,12 @@ type sfield struct {
 }
 
 func (p *pkgInfo) structFields(name string) []sfield {
+	if i := strings.IndexByte(name, '.'); i >= 0 { // struct of another package of the module
+		if q := p.imported(name[:i]); q != nil {
+			return q.structFields(name[i+1:])
+		}
+		return nil
+	}
 	st, ok := p.typeDecl(name).(*ast.StructType)
 	if !ok {
 		return nil
@@ -619,7 +678,7 @@ func (t *btr) callExpr(c *ast.CallExpr) (string, string) {
 				}
 			}
 			t.fail("unsupported append %q", src)
-		case "copyBuf":
+		case "copyBuf", "bytes2StrUnsafe", "string":
 			if len(c.Args) == 1 {
 				s, ty := t.exprTy(c.Args[0])
 				if ty == "bytes" {
@@ -650,6 +709,12 @@ func (t *btr) callExpr(c *ast.CallExpr) (string, string) {
 			}
 		}
 	}
+	// []byte(s): the octets of a string / a byte slice
+	if at, ok := c.Fun.(*ast.ArrayType); ok && at.Len == nil && len(c.Args) == 1 && t.pkg.tyOf(at) == "bytes" {
+		if s, ty := t.exprTy(c.Args[0]); ty == "bytes" {
+			return s, "bytes"
+		}
+	}
 	if sel, ok := c.Fun.(*ast.SelectorExpr); ok {
 		full := text(sel)
 		switch full {
@@ -669,6 +734,17 @@ func (t *btr) callExpr(c *ast.CallExpr) (string, string) {
 				if ty == "bytes" {
 					return s, "bytes"
 				}
+			}
+		case "pool.GetBuf":
+			// a recycled buffer: its previous contents are the fragment's parameter whose Go text is "<pool>"
+			if len(c.Args) == 1 {
+				for _, p := range t.f.sp.Params {
+					if p.Go == "<pool>" {
+						n, _ := t.exprTy(c.Args[0])
+						return fmt.Sprintf("(GoSem.getBuf %s %s)", p.Lean, n), "bytes"
+					}
+				}
+				t.fail("pool.GetBuf without a \"<pool>\" parameter (the previous contents of the recycled buffer)")
 			}
 		}
 		// NameBuilder.ToName() on a builder filled by a translated NameBuilder.unpack (prelude primitive)
@@ -1618,6 +1694,10 @@ func translateBytes(f *bfunc, reg map[string]*bfunc) (res string, err error) {
 		t.ty[n] = f.formTy[i]
 	}
 	for _, p := range f.sp.Params {
+		if p.Go == "<pool>" { // previous contents of the recycled buffer handed out by pool.GetBuf
+			t.ty[p.Go], t.def[p.Go], t.lean[p.Go] = "bytes", true, p.Lean
+			continue
+		}
 		e, perr := parser.ParseExpr(p.Go)
 		if perr != nil {
 			t.fail("parameter %q", p.Go)
